@@ -218,32 +218,152 @@ func (m *MonC10) PreTx(ctx sdk.Context, t *ExecTx) {
 	for _, msg := range flattenMsgs(t.Spec.Msgs) {
 		switch x := msg.(type) {
 		case *leveragelptypes.MsgClosePositions:
-			seen := map[string]bool{}
-			for _, r := range append(append([]*leveragelptypes.PositionRequest{}, x.Liquidate...), x.StopLoss...) {
-				k := fmt.Sprintf("%s/%d", r.Address, r.Id)
-				if r.Address == signer || seen[k] {
-					continue
-				}
-				seen[k] = true
-				if c := m.evalLP(ctx, r.Address, r.Id); c.ok {
-					m.lpPre[t.Index] = append(m.lpPre[t.Index], c)
-				}
-			}
+			m.lpPre[t.Index] = append(m.lpPre[t.Index], m.replayLevLP(ctx, x, signer)...)
 		case *perpetualtypes.MsgClosePositions:
-			seen := map[string]bool{}
-			all := append(append(append([]perpetualtypes.PositionRequest{}, x.Liquidate...), x.StopLoss...), x.TakeProfit...)
-			for _, r := range all {
-				k := fmt.Sprintf("%s/%d", r.Address, r.Id)
-				if r.Address == signer || seen[k] {
-					continue
-				}
-				seen[k] = true
-				if c := m.evalPerp(ctx, r.Address, r.Id); c.ok {
-					m.perpPre[t.Index] = append(m.perpPre[t.Index], c)
-				}
+			m.perpPre[t.Index] = append(m.perpPre[t.Index], m.replayPerp(ctx, x, signer)...)
+		}
+	}
+}
+
+// replayLevLP walks the message exactly as the handler does, on a discarded cache
+// context, using the chain's own functions for the effects of each entry, and
+// evaluates every named position at the exact moment its entry is processed. A
+// position counts as closable if it was closable at ANY of its entries.
+func (m *MonC10) replayLevLP(ctx sdk.Context, x *leveragelptypes.MsgClosePositions, signer string) []lpCond {
+	app := m.sim.N0.App
+	k := app.LeveragelpKeeper
+	cc, _ := ctx.CacheContext()
+	byKey := map[string]*lpCond{}
+	var order []string
+	note := func(c lpCond) {
+		key := fmt.Sprintf("%s/%d", c.pos.Address, c.pos.Id)
+		if prev, ok := byKey[key]; ok {
+			if c.allowed {
+				prev.allowed = true
+			}
+			return
+		}
+		cp := c
+		byKey[key] = &cp
+		order = append(order, key)
+	}
+	step := func(r *leveragelptypes.PositionRequest, stopLoss bool) {
+		defer func() { _ = recover() }()
+		if r == nil {
+			return
+		}
+		c := m.evalLP(cc, r.Address, r.Id)
+		if c.ok && r.Address != signer {
+			note(c)
+		}
+		// mirror of msg_server_close_positions.go
+		position, err := k.GetPosition(cc, r.GetAccountAddress(), r.Id)
+		if err != nil {
+			return
+		}
+		pool, found := k.GetPool(cc, position.AmmPoolId)
+		if !found {
+			return
+		}
+		ammPool, err := k.GetAmmPool(cc, position.AmmPoolId)
+		if err != nil {
+			return
+		}
+		if stopLoss {
+			_, _, _ = k.CheckAndCloseAtStopLoss(cc, &position, pool, ammPool)
+		} else {
+			_, _, _, _ = k.CheckAndLiquidateUnhealthyPosition(cc, &position, pool, ammPool)
+		}
+		if h := k.GetHooks(); h != nil {
+			if ap, found := app.AmmKeeper.GetPool(cc, position.AmmPoolId); found {
+				_ = h.AfterLeverageLpPositionClose(cc, position.GetOwnerAddress(), ap)
 			}
 		}
 	}
+	for _, r := range x.Liquidate {
+		step(r, false)
+	}
+	for _, r := range x.StopLoss {
+		step(r, true)
+	}
+	var out []lpCond
+	for _, key := range order {
+		c := *byKey[key]
+		c.clear = true // evaluated at the exact moment: no margin needed
+		out = append(out, c)
+	}
+	return out
+}
+
+func (m *MonC10) replayPerp(ctx sdk.Context, x *perpetualtypes.MsgClosePositions, signer string) []perpCond {
+	app := m.sim.N0.App
+	k := app.PerpetualKeeper
+	cc, _ := ctx.CacheContext()
+	byKey := map[string]*perpCond{}
+	var order []string
+	note := func(c perpCond) {
+		key := fmt.Sprintf("%s/%d", c.mtp.Address, c.mtp.Id)
+		if prev, ok := byKey[key]; ok {
+			if c.allowed {
+				prev.allowed = true
+			}
+			if c.custody.LT(prev.custody) {
+				prev.custody = c.custody
+			}
+			return
+		}
+		cp := c
+		byKey[key] = &cp
+		order = append(order, key)
+	}
+	step := func(r perpetualtypes.PositionRequest, kind int) {
+		defer func() { _ = recover() }()
+		c := m.evalPerp(cc, r.Address, r.Id)
+		if c.ok && r.Address != signer {
+			note(c)
+		}
+		// mirror of msg_server_close_positions.go
+		owner, err := sdk.AccAddressFromBech32(r.Address)
+		if err != nil {
+			return
+		}
+		position, err := k.GetMTP(cc, owner, r.Id)
+		if err != nil {
+			return
+		}
+		pool, found := k.GetPool(cc, position.AmmPoolId)
+		if !found {
+			return
+		}
+		switch kind {
+		case 0:
+			ammPool, err := k.GetAmmPool(cc, position.AmmPoolId)
+			if err != nil {
+				return
+			}
+			_ = k.CheckAndLiquidateUnhealthyPosition(cc, &position, pool, ammPool, DenomUSDC)
+		case 1:
+			_ = k.CheckAndCloseAtStopLoss(cc, &position, pool, DenomUSDC)
+		default:
+			_ = k.CheckAndCloseAtTakeProfit(cc, &position, pool, DenomUSDC)
+		}
+	}
+	for _, r := range x.Liquidate {
+		step(r, 0)
+	}
+	for _, r := range x.StopLoss {
+		step(r, 1)
+	}
+	for _, r := range x.TakeProfit {
+		step(r, 2)
+	}
+	var out []perpCond
+	for _, key := range order {
+		c := *byKey[key]
+		c.clear = true
+		out = append(out, c)
+	}
+	return out
 }
 
 func (m *MonC10) PostTx(ctx sdk.Context, t *ExecTx) {
